@@ -11,6 +11,8 @@ use crate::p2::shape as s2;
 use crate::p3::shape::SupportMap as SM3;
 use crate::p2::shape::SupportMap as SM2;
 use crate::p3::query::gjk::{ConstantOrigin, ConstantPoint, DilatedShape};
+#[path = "c10_poly.rs"]
+mod poly;
 
 fn sup3<S: SM3 + ?Sized>(s: &S, mode: &str, a: &mut Args) -> String {
     match mode {
@@ -110,6 +112,7 @@ fn exec_feature(func: &str, a: &mut Args) -> Option<String> {
 
 pub fn exec(func: &str, a: &mut Args) -> String {
     if let Some(s) = exec_feature(func, a) { return s; }
+    if let Some(s) = poly::exec(func, a) { return s; }
     let (shape, mode) = match func.rfind('_') { Some(i) => (&func[..i], &func[i + 1..]), None => (func, "") };
     match shape {
         // ---- 3-D
@@ -448,6 +451,8 @@ pub fn gen(r: &mut Rng, thorough: bool) -> Vec<(String, String)> {
                 }
             }
         }
+        // ---- ConvexPolyhedron feature maps, CSO points (c10_poly.rs)
+        poly::gen(r, it, lat, &mut v);
     }
     v
 }
